@@ -285,6 +285,15 @@ impl Real {
                 _ => b.body_json(v).map_err(|_| 9999u32)?,
             };
         }
+        if body.is_none() {
+            // an empty body is a read whatever format code it is tagged with
+            b = match simkernel::choose(5) {
+                0 => b.body_format(BodyFormat::Utf8),
+                1 => b.body_format(BodyFormat::Json),
+                2 => b.body_format(BodyFormat::Beve),
+                _ => b,
+            };
+        }
         let req = b.build();
         let Some(h) = router.get(path) else { return Err(NOT_FOUND) };
         // ... through the owning entry point or the borrowing one the servers use
